@@ -289,7 +289,7 @@ func runC16(c *Ctx) {
 			fn := cs.Parent()
 			key := "install-under-flag|" + fnKey(fn)
 			found := false
-			c.Walk(rule, fn, func(p *walk.Path) {
+			c.WalkShallow(rule, fn, func(p *walk.Path) {
 				for i, s := range p.Steps {
 					if s.In != cs.(ssa.Instruction) {
 						continue
